@@ -142,11 +142,12 @@ example : ∃ tr2 r, Run (roundTrip exCfg 105000000000 exReq)
   ⟨[.origin sGET [(sIfNoneMatch, str% "v1")] none (.resp ex304 105000000000 true), .setEntry _ _ true], _,
     Run.getRefs _ (Run.getEntry _ (Run.origin _ (Run.setEntry _ (Run.ret _))))⟩
 
-theorem not_any_nonempty (l : List Str) : (!(l.any fun v => !v.isEmpty)) = decide (l.filter (!·.isEmpty) = []) := by
+theorem not_any_nonempty (l : List Str) :
+    (!(l.any fun v => !(trimString v).isEmpty)) = decide (l.filter (fun v => !(trimString v).isEmpty) = []) := by
   induction l with
   | nil => rfl
   | cons a t ih =>
-    by_cases ha : a.isEmpty = true
+    by_cases ha : (trimString a).isEmpty = true
     · simp only [List.any_cons, ha, Bool.not_true, Bool.false_or, List.filter_cons, Bool.false_eq_true, ↓reduceIte]
       exact ih
     · simp [ha]
@@ -154,13 +155,17 @@ theorem not_any_nonempty (l : List Str) : (!(l.any fun v => !v.isEmpty)) = decid
 /-- WHEN a 304 is a validation result, said twice and proved to be the same thing. The specification
     (`Spec.isValidationOf`, evaluated by the monitors on the request that actually went upstream): the preconditions
     the origin evaluated are exactly the stored validators — with a stored ETag the If-None-Match decides alone
-    (RFC 9110 §13.2.2). The implementation (`clientPreconditionForwarded`, evaluated on the CLIENT's request before
-    the cache's own validators are put in): a precondition of the client's own went upstream in their place. For
-    every client request and every stored response, on the conditional request the cache builds
-    (`withConditional`), the one is the negation of the other. (The pinned tree freshened its stored response with
-    a 304 that answered the client's own If-None-Match; the first repair then refused a genuine 304 whenever the
-    client had sent an If-Modified-Since beside a stored ETag — e5880f2. This theorem would have refused both.) -/
-theorem validation_iff_no_client_precondition (reqH storedH : Header) :
+    (RFC 9110 §13.2.2); a field line of white space only carries no value. The implementation
+    (`clientPreconditionForwarded`, evaluated on the CLIENT's request before the cache's own validators are put in):
+    a precondition of the client's own went upstream in their place. For every client request and every stored
+    response whose validators are not themselves blank (`hE`, `hL`: a stored field is trimmed when it is parsed), on the
+    conditional request the cache builds (`withConditional`), the one is the negation of the other. (The pinned
+    tree freshened its stored response with a 304 that answered the client's own If-None-Match; the first repair
+    then refused a genuine 304 whenever the client had sent an If-Modified-Since beside a stored ETag — e5880f2; a
+    later hunt found `If-None-Match: " "` counted as a precondition. This theorem refuses all three.) -/
+theorem validation_iff_no_client_precondition (reqH storedH : Header)
+    (hE : (trimString (Header.get storedH sETag)).isEmpty = (Header.get storedH sETag).isEmpty)
+    (hL : (trimString (Header.get storedH sLastModified)).isEmpty = (Header.get storedH sLastModified).isEmpty) :
     Spec.isValidationOf storedH (withConditional reqH storedH) = !clientPreconditionForwarded reqH storedH := by
   have hne : sIfNoneMatch ≠ sIfModifiedSince := by decide
   unfold Spec.isValidationOf withConditional clientPreconditionForwarded hasFieldValue
@@ -168,15 +173,15 @@ theorem validation_iff_no_client_precondition (reqH storedH : Header) :
   · simp only [he, Bool.not_true, Bool.false_eq_true, ↓reduceIte, Bool.true_and]
     by_cases hl : (Header.get storedH sLastModified).isEmpty = true
     · simp only [hl, ↓reduceIte, Bool.and_true]
-      have hlm : Header.get storedH sLastModified = [] := by simpa using hl
       rw [Bool.not_or, not_any_nonempty, not_any_nonempty]
     · simp only [hl, Bool.false_eq_true, ↓reduceIte, Bool.and_false, Bool.or_false]
       rw [Header.values_set_other _ _ _ _ hne.symm, Header.values_set_self, not_any_nonempty]
-      have : ([Header.get storedH sLastModified].filter (!·.isEmpty)) = [Header.get storedH sLastModified] := by
-        simp [hl]
+      have : ([Header.get storedH sLastModified].filter (fun v => !(trimString v).isEmpty)) = [Header.get storedH sLastModified] := by
+        simp [hL, hl]
       simp [this]
   · simp only [he, Bool.not_false, ↓reduceIte, Bool.false_and, Bool.not_false, Bool.false_eq_true]
-    have hfilter : ([Header.get storedH sETag].filter (!·.isEmpty)) = [Header.get storedH sETag] := by simp [he]
+    have hfilter : ([Header.get storedH sETag].filter (fun v => !(trimString v).isEmpty)) = [Header.get storedH sETag] := by
+      simp [hE, he]
     by_cases hl : (Header.get storedH sLastModified).isEmpty = true
     · simp only [hl, ↓reduceIte]
       rw [Header.values_set_self, hfilter]; simp
